@@ -313,7 +313,7 @@ func check(c *enum.Ctx, k kase) bool {
 }
 
 func run(c *enum.Ctx) {
-	c.Rule("complete: 7 built-in alphabets x all 256 letters (validity, index, letter, complement method/table) and every letter slice of length <=3 over {valid lower, valid upper, invalid, 0xFF}; bounded-exhaustive: every alphabet definition of length 1..4 over {a,B,c,-,*} without case-duplicates, cased and uncased; every pair of strings of length <=3 over {a,c,g,t} (plus mismatched lengths and a non-ASCII rune at every position) as a pairing definition, with a complementor over every alphabet it is closed over; distinct = distinct case descriptors; non-trivial = cases where a constructor succeeded or a built-in was queried")
+	c.Rule("complete: 7 built-in alphabets x all 256 letters (validity, index, letter, complement method/table) and every letter slice of length <=3 over {valid lower, valid upper, invalid, 0xFF} and every slice of length 4..19, 63..66 of valid letters with zero, one or two invalid letters at every position; bounded-exhaustive: every alphabet definition of length 1..4 over {a,B,c,-,*} without case-duplicates, cased and uncased; every pair of strings of length <=3 over {a,c,g,t} (plus mismatched lengths and a non-ASCII rune at every position) as a pairing definition, with a complementor over every alphabet it is closed over; distinct = distinct case descriptors; non-trivial = cases where a constructor succeeded or a built-in was queried")
 	c.Assume("reference definitions of the built-in alphabets are restated in the harness from the package documentation")
 	n := 0
 	do := func(k kase) {
@@ -336,6 +336,30 @@ func run(c *enum.Ctx) {
 			}
 			do(kase{Kind: "builtin-allvalid", Name: b.name, Letters: ls})
 		})
+		// longer slices (block-wise scans): every length 4..19 (and 63..66) of valid letters with no, one
+		// or two invalid letters at every position
+		var lens []int
+		for n := 4; n <= 19; n++ {
+			lens = append(lens, n)
+		}
+		lens = append(lens, 63, 64, 65, 66)
+		for _, n := range lens {
+			base := make([]byte, n)
+			for i := range base {
+				base[i] = b.def[(i*3+i/5)%len(b.def)]
+			}
+			do(kase{Kind: "builtin-allvalid", Name: b.name, Letters: append([]byte{}, base...)})
+			for i := 0; i < n; i++ {
+				for j := i; j < n; j++ {
+					if n > 19 && j != i && j != n-1 {
+						continue
+					}
+					ls := append([]byte{}, base...)
+					ls[i], ls[j] = '!', 0xFF
+					do(kase{Kind: "builtin-allvalid", Name: b.name, Letters: ls})
+				}
+			}
+		}
 	}
 	defAlpha, defMax, wordMax := "aBc-*", 4, 3
 	if !c.Quick {
